@@ -312,7 +312,7 @@ MANIFEST_TEXT = {
     'C06': _mt('merge contracts over abstract views: unbounded Verus proofs for Bloom, Cuckoo, CMS, HLL and the quotient filter (Ok => exact union of the abstract sets, Err => restored). Kani harnesses as counterexample engine.',
                'Trusted: stubs, hashing model, iterator-chain rewrites.', 'Verus contracts on extracted real functions + Kani contract harnesses (counterexample engine)'),
     'C09': _mt('Verus proof that the real LossyCounter::add preserves the Lossy Counting invariant for every ghost true-count function; guarantee lemmas on top.',
-               'Trusted: vstd HashMap/entry specs, std drain/filter/collect semantics (predicate text captured from source), f64 formulas for epsilon/bound taken in real arithmetic. Harmonic table bound not decided.',
+               'Trusted: vstd HashMap/entry specs, std drain/filter/collect semantics (predicate text captured from source), the f64 threshold of query translated mechanically to real arithmetic (R13: no rounding error/NaN modelled; ceil/floor/round axiomatised), eps*width >= 1 assumed of the constructors (Kani grid cross-check). Harmonic table bound not decided.',
                'Verus contracts on the extracted real add() + guarantee lemmas'),
     'C10': _mt('Unbounded Verus proof on the real CMSHeap::add: never panics, map and tree agree, exactly min(k, distinct seen) elements, all added, and the ranking invariant from which C10\'s ranking clause follows (lemma_ranking).',
                'Trusted: vstd HashMap specs, contract-only stubs for BTreeSet<TreeEntry> (ordered by (n, obj)) and for the sketch (estimate in [true, true+E]). No counterexample engine (Kani cannot run HashMap/BTreeSet).',
